@@ -453,14 +453,13 @@ theorem linearizable :
     Gen.FactsC08.lockedMethods.lookup "RecordResult" = some true ∧
     Gen.FactsC08.timeNowMentions = 1 := by decide
 
-/-- Facts obligation: the constants have the numeric values the model's `St.toNat` / `Res` assume,
-`Wrap` has the modelled shape, and `ServerPool.handle` maps `ErrShortCircuited` as `poolOutcome`. -/
+/-- Facts obligation: the constants have the numeric values the model's `St.toNat` / `Res` assume, and
+`ServerPool.handle` maps `ErrShortCircuited` as `poolOutcome` (`Wrap`'s shape: `wrap_regenerated_from_source`). -/
 theorem source_shape :
     Gen.FactsC08.stateConsts = ["StateDisabled", "StateClosed", "StateHalfOpen", "StateOpen", "StateForceOpen"] ∧
     Gen.FactsC08.callResultConsts = ["CallResultUnknown", "CallResultSuccess", "CallResultSlow", "CallResultFailure"] ∧
-    Gen.FactsC08.wrapShape = ["acquire", "reject", "panicked:=true", "defer-record-failure-if-panicked",
-      "handler", "record", "panicked=false", "return"] ∧
-    Gen.FactsC08.wrapAcquireCalls = 1 ∧ Gen.FactsC08.wrapRecordCalls = 2 ∧ Gen.FactsC08.wrapHandlerCalls = 1 ∧
+    -- (the statement shape of `Wrap` that used to be pinned here by printed statements is now tied by
+    -- `wrap_regenerated_from_source`, which survives renames and re-orderings)
     Gen.FactsC08.shortCircuitBlock = ["sp.buildFailureResponse(spCtx, http.StatusServiceUnavailable)",
       "return resultShortCircuited"] ∧
     Gen.FactsC08.resultShortCircuited = (poolOutcome false PoolErr.shortCircuited).1 := by
@@ -531,5 +530,115 @@ theorem timePush_regenerated_from_source (w : TimeWin) (now : Int) (r : Res)
     (h : (w.evict now).beginAt ≤ now) :
     Gen.FactsC08IR.extractionFailed = false ∧ Gen.FactsC08IR.timePushIR w now r = w.push now r :=
   ⟨by decide, CircuitBreaker.timePush_regenerated_from_source w now r h⟩
+
+/-! ### Extension resil: `Wrap` tied by translation, and concurrent wrapped calls -/
+
+/-- `circuitBreakerWrapper.Wrap`'s closure, regenerated from the source on every run (acquire; refused ⇒
+`ErrShortCircuited`; handler; exactly one `RecordResult` on the normal path, and — through the inlined
+deferred closure — exactly one `RecordResult(…, true, …)` when the handler panics). -/
+theorem wrap_regenerated_from_source (permitted : Bool) (o : Outcome) :
+    Gen.FactsC08IRw.extractionFailed = false ∧ Gen.FactsC08IRw.wrapIR permitted o = wrap permitted o :=
+  ⟨by decide, CircuitBreaker.wrap_regenerated_from_source permitted o⟩
+
+example : Gen.FactsC08IRw.wrapIR true Outcome.panic = ([Ev.acquire, Ev.handler, Ev.record true], WrapRet.panics) := by
+  decide
+
+/-- what concurrent callers of the wrapped handler do to the breaker: thread `t` enters `Wrap`
+(`AcquirePermission` under the lock), later — if it was admitted — its handler is over and `Wrap` records
+once with the id it was given (`wrap_records_once`); time passes -/
+inductive WEv
+  | start (t : Nat)
+  | finish (t : Nat) (hasErr : Bool) (d : Int)
+  | tick (d : Nat)
+
+structure WSt where
+  cb : CB
+  now : Int
+  /-- every id handed out so far (the history's `ids`) -/
+  ids : List Nat
+  /-- admitted calls still running: (thread, id it holds) -/
+  held : List (Nat × Nat)
+  /-- threads that were short-circuited -/
+  refused : List Nat
+
+def wstep (p : Policy) (s : WSt) : WEv → WSt
+  | .start t =>
+    let r := acquire p s.cb s.now
+    if r.2.permitted then { s with cb := r.1, ids := r.2.id :: s.ids, held := (t, r.2.id) :: s.held }
+    else { s with cb := r.1, refused := t :: s.refused }
+  | .finish t e d =>
+    match s.held.find? (fun h => h.1 == t) with
+    | some h => { s with cb := record p s.cb h.2 e d s.now, held := s.held.filter (fun h => h.1 != t) }
+    | none => s
+  | .tick d => { s with now := s.now + d }
+
+theorem wstep_inv (p : Policy) (s : WSt) (e : WEv)
+    (hr : Reach p s.cb s.now s.ids) (hs : (s.held.map (·.2)).Sublist s.ids) :
+    Reach p (wstep p s e).cb (wstep p s e).now (wstep p s e).ids ∧
+      ((wstep p s e).held.map (·.2)).Sublist (wstep p s e).ids := by
+  cases e with
+  | start t =>
+    have st := Step.acquire (p := p) s.cb s.now s.ids
+    simp only [wstep]
+    by_cases hp : (acquire p s.cb s.now).2.permitted = true
+    · simp only [hp, if_true] at st ⊢
+      refine ⟨Reach.step hr st, ?_⟩
+      simp only [List.map_cons]
+      exact hs.cons_cons _
+    · simp only [hp, Bool.false_eq_true, if_false] at st ⊢
+      exact ⟨Reach.step hr st, hs⟩
+  | finish t e d =>
+    simp only [wstep]
+    cases hf : s.held.find? (fun h => h.1 == t) with
+    | none => exact ⟨hr, hs⟩
+    | some h =>
+      have hm : h ∈ s.held := List.mem_of_find?_eq_some hf
+      have hid : h.2 ∈ s.ids := hs.subset (List.mem_map_of_mem hm)
+      refine ⟨Reach.step hr (Step.record s.cb s.now s.ids h.2 e d hid), ?_⟩
+      exact ((List.filter_sublist (l := s.held)).map _).trans hs
+  | tick d =>
+    simp only [wstep]
+    exact ⟨Reach.step hr (Step.advance s.cb s.now s.ids d (by omega)), hs⟩
+
+/-- **Concurrent wrapped calls in HALF_OPEN** — for *every* interleaving of any number of callers' `Wrap`
+entries, completions (in any order, however late) and clock advances, starting from `New`: the breaker's
+state is a reachable history (so every theorem of Part 2 applies), and while HALF_OPEN the calls that are
+running as trials of the current half-open period never exceed `permittedNumberOfCallsInHalfOpenState`;
+all other callers were short-circuited (no handler call, no record). -/
+theorem concurrent_wraps_halfopen (p : Policy) (t0 : Int) (evs : List WEv) :
+    let s := evs.foldl (wstep p) ⟨new p t0, t0, [], [], []⟩
+    Reach p s.cb s.now s.ids ∧
+    (s.cb.st = St.halfOpen →
+      (s.held.filter (fun h => h.2 == s.cb.stateID)).length ≤ p.permitted) := by
+  have key : ∀ (evs : List WEv) (s : WSt), Reach p s.cb s.now s.ids → (s.held.map (·.2)).Sublist s.ids →
+      Reach p (evs.foldl (wstep p) s).cb (evs.foldl (wstep p) s).now (evs.foldl (wstep p) s).ids ∧
+      ((evs.foldl (wstep p) s).held.map (·.2)).Sublist (evs.foldl (wstep p) s).ids := by
+    intro evs
+    induction evs with
+    | nil => intro s hr hs; exact ⟨hr, hs⟩
+    | cons e es ih =>
+      intro s hr hs
+      obtain ⟨h1, h2⟩ := wstep_inv p s e hr hs
+      exact ih _ h1 h2
+  obtain ⟨hr, hs⟩ := key evs ⟨new p t0, t0, [], [], []⟩ (Reach.init t0) (by simp)
+  refine ⟨hr, fun hh => ?_⟩
+  have h1 := halfopen_admits_at_most hr hh
+  have h2 := hs.count_le (evs.foldl (wstep p) ⟨new p t0, t0, [], [], []⟩).cb.stateID
+  have h3 : ∀ (l : List (Nat × Nat)) (x : Nat), (l.filter (fun h => h.2 == x)).length = (l.map (·.2)).count x := by
+    intro l x
+    induction l with
+    | nil => rfl
+    | cons a r ih => by_cases ha : a.2 = x <;> simp [ha, ih]
+  rw [h3]
+  omega
+
+/-- three callers racing into a HALF_OPEN breaker with one permitted trial: threads 0 and 1 open it (two
+failures), after the wait thread 2 is admitted as the trial, threads 3 and 4 are short-circuited while it
+runs — the hypothesis `st = halfOpen` of `concurrent_wraps_halfopen` is met with a running trial -/
+example :
+    let s := ([WEv.start 0, .start 1, .finish 1 true 0, .finish 0 true 0, .tick 1000000000, .start 2, .start 3,
+      .start 4] : List WEv).foldl (wstep pEx) ⟨new pEx 0, 0, [], [], []⟩
+    s.cb.st = St.halfOpen ∧ s.held = [(2, s.cb.stateID)] ∧ s.refused = [4, 3] := by
+  decide
 
 end EgVerif.C08
